@@ -17,6 +17,7 @@ Fn3(o, a, b, c) == [k |-> "fn", op |-> o, a |-> <<a, b, c>>]
 FnN(o, as)      == [k |-> "fn", op |-> o, a |-> as]
 Agg(o, x)       == [k |-> "agg", op |-> o, a |-> <<x>>, pk |-> "ctx", part |-> <<>>, f |-> <<>>]
 AggF(o, x, p)   == [k |-> "agg", op |-> o, a |-> <<x>>, pk |-> "ctx", part |-> <<>>, f |-> <<p>>]
+AggF2(o, x, p, q) == [k |-> "agg", op |-> o, a |-> <<x>>, pk |-> "ctx", part |-> <<>>, f |-> <<p, q>>]     \* filter=[p, q]
 AggP(o, x, pp)  == [k |-> "agg", op |-> o, a |-> <<x>>, pk |-> "ids", part |-> pp, f |-> <<>>]
 Len0            == [k |-> "agg", op |-> "len", a |-> <<>>, pk |-> "ctx", part |-> <<>>, f |-> <<>>]
 Len0F(p)        == [k |-> "agg", op |-> "len", a |-> <<>>, pk |-> "ctx", part |-> <<>>, f |-> <<p>>]
